@@ -522,6 +522,98 @@ class DenseLists(Part):
         return res
 
 
+class ListSpellings(Part):
+    name = "spellings_of_the_listed_numbers"
+    desc = ("each number of a menu listed in every spelling the constructor might take for a number (blank before / after - "
+            "'-n \"65001, 65002\"' -, leading zeros, '+', '_', other Unicode digits, a trailing newline), through the "
+            "library and the command line: either refused with a value error, or the same output as the plain decimal "
+            "spelling (the replacement is a function of salt and number only; other text unchanged)")
+
+    NUMBERS = [0, 7, 64511, 64512, 65001, 65535, 65536, 4200000000, 4294967295]
+    TEXT = ("router bgp {n}\n neighbor 1.2.3.4 remote-as {n} description x\n as-path {n} 0{n} +{n} {n}_ ({n}) {n}\n"
+            "as {u} end\n")
+
+    @staticmethod
+    def spellings(n):
+        d = str(n)
+        arabic = "".join(chr(0x0660 + int(c)) for c in d)
+        fullwidth = "".join(chr(0xFF10 + int(c)) for c in d)
+        out = [" " + d, d + " ", "\t" + d, d + "\n", "0" + d, "000" + d, "+" + d, arabic, fullwidth, d + ".0", "0x%x" % n, d + " "]
+        if len(d) > 1:
+            out.append(d[0] + "_" + d[1:])
+        return out
+
+    def __init__(self, tier, seed):
+        self.tier, self.seed = tier, seed
+
+    def cases(self):
+        return [{"n": n} for n in self.NUMBERS]
+
+    def _run(self, lst, text, entry, root, tag):
+        import io
+
+        from netconan.anonymize_files import FileAnonymizer
+        from netconan.netconan import main
+
+        with seams.capture_logs(), seams.capture_stdio():
+            try:
+                if entry == "library":
+                    fa = FileAnonymizer(anon_pwd=False, anon_ip=False, salt="saltForTest", as_numbers=list(lst))
+                    out = io.StringIO()
+                    fa.anonymize_io(io.StringIO(text), out)
+                    return "ok", out.getvalue()
+                import os
+
+                d = os.path.join(root, tag)
+                seams.write_tree(os.path.join(d, "in"), {"a.cfg": text})
+                main(["-s", "saltForTest", "-n", ",".join(lst), "-i", os.path.join(d, "in"), "-o", os.path.join(d, "out")])
+                got = seams.read_tree(os.path.join(d, "out")).get("a.cfg")
+                return ("ok", got.decode("utf-8")) if got is not None else ("no-output", None)
+            except ValueError as e:
+                return "refused", "%s: %s" % (type(e).__name__, e)
+            except SystemExit as e:
+                return "refused", "exit %s" % e.code
+            except Exception as e:
+                return "failed", "%s: %s" % (type(e).__name__, e)
+            finally:
+                seams.restore_globals()
+
+    def run(self, case):
+        import shutil
+
+        res = Res()
+        n = case["n"]
+        root = seams.scratch_dir("c11s")
+        try:
+            for sp in self.spellings(n):
+                if "sp" in case and case["sp"] != sp:
+                    continue
+                text = self.TEXT.format(n=n, u=sp.strip() if sp.strip() != str(n) else n)
+                for entry in ("library", "main"):
+                    if entry == "main" and ("\n" in sp or sp.startswith(("\t", " ")) and False):
+                        continue
+                    res.evals += 1
+                    ref = self._run([str(n), "12"], text, entry, root, "r")
+                    got = self._run([sp, "12"], text, entry, root, "g")
+                    res.nt((n, sp, entry))
+                    res.out((got[0], got == ref))
+                    rc = {"n": n, "sp": sp}
+                    if got[0] == "failed":
+                        res.violation("spelling-neither-refused-nor-handled|%s" % entry,
+                                      "number %d listed as %r (%s): %s" % (n, sp, entry, got[1]), rc)
+                    elif got[0] == "ok" and got != ref:
+                        la, lb = got[1].split("\n"), ref[1].split("\n")
+                        k = [i for i in range(min(len(la), len(lb))) if la[i] != lb[i]]
+                        res.violation("accepted-spelling-differs-from-the-plain-number|%s" % entry,
+                                      "number %d listed as %r (%s): input line %r -> %r; listed as %r -> %r" % (
+                                          n, sp, entry, text.split("\n")[k[0]] if k else "?", la[k[0]] if k else la[-1:], str(n), lb[k[0]] if k else lb[-1:]), rc)
+            if "sp" not in case:
+                res.samples.append({"number": n, "spellings": self.spellings(n)})
+        finally:
+            shutil.rmtree(root, ignore_errors=True)
+        return res
+
+
 def parts(tier, seed):
     return [RangePart(tier, seed), RealMd5Part(tier, seed), TokenPart(tier, seed), InstancesPart(tier, seed),
-            GeneratedSaltPart(tier, seed), CollisionPart(tier, seed), FeatureSubsets(tier, seed), DenseLists(tier, seed)]
+            GeneratedSaltPart(tier, seed), CollisionPart(tier, seed), FeatureSubsets(tier, seed), DenseLists(tier, seed), ListSpellings(tier, seed)]
